@@ -43,6 +43,7 @@ type c07Reload struct {
 	Kind  string `json:"kind"`           // ok | parse | setup | startup | listen
 	Var   int    `json:"var,omitempty"`  // which concrete way of failing / which block carries the failure
 	GapUs int    `json:"gap_us"`         // pause before the call
+	ShutErr bool `json:"shut_err,omitempty"` // valid configuration whose OnShutdown callback returns an error
 }
 
 type c07In struct {
@@ -57,6 +58,7 @@ type c07In struct {
 	Chunked  bool        `json:"chunked"`
 	GraceMs  int         `json:"grace_ms"` // httpserver.GracefulTimeout for the lineage
 	MaxReq   int         `json:"max_req"`
+	ShutErr0 bool        `json:"shut_err0,omitempty"` // the first configuration's OnShutdown callback returns an error
 	Signal   bool        `json:"signal,omitempty"` // reload by SIGUSR1 to the own process instead of calling Restart
 	Reloads  []c07Reload `json:"reloads"`
 	retries  int
@@ -144,6 +146,8 @@ func c07Register() {
 				return c.Err("c07probe: setup failure requested")
 			case "failstartup":
 				c.OnStartup(func() error { return errors.New("c07probe: startup callback failure requested") })
+			case "failshutdown":
+				c.OnShutdown(func() error { return errors.New("c07probe: shutdown callback failure requested") })
 			}
 		}
 		p := c07Probe{cfg: n[0], slot: n[1], site: n[2], delay: time.Duration(n[3]) * time.Millisecond, bodyLen: n[4], chunked: n[5] != 0}
@@ -159,6 +163,7 @@ func c07Host(slot, site int) string { return fmt.Sprintf("a%ds%d.c07", slot, sit
 func c07IP(slot int) string         { return fmt.Sprintf("127.0.0.%d", 1+slot) }
 
 func c07Config(in *c07In, n int, slots []int, kind string, variant int, blockedPort int) string {
+	shutErr := (n == 0 && in.ShutErr0) || (n > 0 && n <= len(in.Reloads) && in.Reloads[n-1].ShutErr)
 	var sb strings.Builder
 	nblocks := len(slots) * in.Sites
 	failAt := 0
@@ -206,6 +211,9 @@ func c07Config(in *c07In, n int, slots []int, kind string, variant int, blockedP
 						sb.WriteString("  import /nonexistent/c07-missing-file\n")
 					}
 				}
+			}
+			if shutErr && bi == 0 {
+				extra += " failshutdown"
 			}
 			fmt.Fprintf(&sb, "  c07probe %d %d %d %d %d %d%s\n", n, sl, j, in.DelayMs, in.BodyLen, ch, extra)
 			sb.WriteString("}\n")
